@@ -242,6 +242,8 @@ def prepare():
     from pharmpy.workflows.hashing import ModelHash
     from pharmpy.workflows.model_database.baseclass import PendingTransactionError
 
+    import pharmpy.workflows.hashing as _hashing
+    _P['hashing_path'] = _hashing.__file__
     _P.update(pmodel=pmodel, ctxmod=ctxmod, dbmod=dbmod, Ctx=LocalDirectoryContext,
               ModelEntry=ModelEntry, ModelHash=ModelHash, Pending=PendingTransactionError)
     base = load_example_model('pheno')
@@ -333,6 +335,8 @@ def prepare():
                     'signature': f'{PROP}/results-not-verbatim-after-fault-free-store',
                     'detail': f'the results of {e["name"]} (log with {len(e["me"].modelfit_results.log)} '
                               f'entries) differ after one fault-free store_model_entry + retrieve'})
+    for e in POOL[:NPOOL]:
+        _DS_HASH[e['idx']] = str(ModelHash(e['model']).dataset_hash)
     # what the real dummy runner produces for each entry (seeded by the model name)
     for e in POOL[:NPOOL]:
         DUMMY[e['idx']] = create_dummy_modelfit_results(e['model']).to_json()
@@ -470,9 +474,14 @@ def _memo_parse_inner(path, missing_data_token=None):
 # run classes
 # --------------------------------------------------------------------------
 def config_for(i, tier='quick'):
+    only = os.environ.get('VERIF_C16_ONLY')      # developer aid: every run in one mode
+    if only == 'keyrace':
+        return {'mode': 'keyrace', 'memo': True, 'clock_jumps': False}
     memo = (i % 11) != 10
     jumps = (i % 3) == 1
-    if i % 40 == 20:
+    if i % 40 == 30:
+        c = {'mode': 'keyrace', 'memo': True, 'clock_jumps': False}
+    elif i % 40 == 20:
         c = {'mode': 'scale', 'memo': memo, 'clock_jumps': False}
     elif i % 8 == 0:
         c = {'mode': 'journal', 'memo': memo, 'clock_jumps': jumps}
@@ -483,6 +492,9 @@ def config_for(i, tier='quick'):
     else:
         fault = ('none', 'oserror', 'death', 'mix', 'none', 'death')[(i % 8 + i // 8) % 6]
         c = {'mode': 'insitu', 'memo': memo, 'clock_jumps': jumps, 'fault': fault}
+        if i % 16 == 3:
+            c['line_hashing'] = True
+            c['fault'] = 'none'
     return c
 
 
@@ -493,9 +505,10 @@ def scenarios(tier):
 
 def class_name(cfg):
     if cfg['mode'] == 'insitu':
-        return f"mode=insitu,fault={cfg.get('fault')},memo={int(cfg.get('memo', True))}"
-    if cfg['mode'] == 'scale':
-        return 'mode=scale'
+        return f"mode=insitu,fault={cfg.get('fault')},memo={int(cfg.get('memo', True))}" + \
+            (',line_hashing' if cfg.get('line_hashing') else '')
+    if cfg['mode'] in ('scale', 'keyrace'):
+        return 'mode=' + cfg['mode']
     return f"mode={cfg['mode']},crashpoints={cfg.get('crashpoints')},memo={int(cfg.get('memo', True))}"
 
 
@@ -1592,6 +1605,79 @@ def run_scale(cfg, tape, want_trace=False):
     return res
 
 
+def run_keyrace(cfg, tape, want_trace=False):
+    """The key under which an entry is stored and found again must not depend on what other
+    threads of the process are hashing at the same time: several virtual threads compute
+    ModelHash of pool entries (different datasets, the same DataFrame objects again and again)
+    under seeded schedules that pre-empt at every line of workflows/hashing.py."""
+    from sim.kernel import Kernel
+    V = Verdicts()
+    ModelHash = _P['ModelHash']
+    h = hashlib.sha256()
+    steps = switches = 0
+    rounds = 12
+    trace = []
+    for rnd in range(rounds):
+        policy = ('random', 'sticky', 'pct', 'pct')[tape.draw(4, 'policy')]
+        k = Kernel(tape, policy=policy, max_steps=20000, pct_depth=1 + tape.draw(3, 'pct.depth'),
+                   pct_span=120, log_events=False, trace_files=(_P['hashing_path'],))
+        got = []
+        plan = []
+        for t in range(2 + tape.draw(2, 'nthr')):
+            # alternate between entries of the two datasets (POOL[0]: dataset A, POOL[4]: B ...)
+            idxs = [tape.draw(NPOOL, 'key.model') for _ in range(2 + tape.draw(2, 'nkeys'))]
+            plan.append(idxs)
+
+            def body(idxs=idxs, t=t):
+                for idx in idxs:
+                    e = POOL[idx]
+                    via = tape.draw(3, 'key.via')
+                    obj = e['model'] if via == 0 else (e['me'] if via == 1 else e['model'].dataset)
+                    if via == 2:
+                        from pharmpy.workflows.hashing import DatasetHash
+                        got.append((t, idx, 'dataset', str(DatasetHash(obj))))
+                    else:
+                        got.append((t, idx, 'model', str(ModelHash(obj))))
+                    k.yield_point('between-keys')
+            k.spawn(body, f't{t + 1}', pid=1)
+        try:
+            outcome = k.run()
+        finally:
+            k.shutdown()
+        steps += k.steps
+        switches += k.switches
+        h.update(k.digest().encode())
+        if outcome != 'done':
+            return {'violations': [], 'harness_error': f'keyrace round ended with {outcome}', 'digest': h.hexdigest(),
+                    'steps': steps, 'switches': switches, 'outcome': outcome, 'stats': V.stats,
+                    'nontrivial': True, 'tape': list(tape.out), 'states': [], 'sim_seconds': 0.0}
+        for (t, idx, kind, val) in got:
+            e = POOL[idx]
+            want = e['key'] if kind == 'model' else _DS_HASH[idx]
+            if val != want:
+                V.viol('key-depends-on-thread-schedule',
+                       f'round {rnd}: thread t{t + 1} computed the {kind} hash of {e["name"]} as {val[:12]} while '
+                       f'other threads were hashing; alone it is {want[:12]} (threads hashed {plan})')
+        V.count('keyrace.rounds')
+        V.count('keyrace.keys', len(got))
+        if want_trace:
+            trace.append({'round': rnd, 'policy': policy, 'plan': plan})
+        if V.violations:
+            break
+    h.update(repr([v['signature'] for v in V.violations]).encode())
+    res = {'violations': V.violations, 'harness_error': None, 'digest': h.hexdigest(), 'steps': steps,
+           'switches': switches, 'outcome': 'ok', 'stats': V.stats, 'nontrivial': switches > 4,
+           'tape': list(tape.out), 'states': [], 'sim_seconds': 0.0}
+    if want_trace:
+        res['workload'] = {'models': [], 'ops': [str(x) for x in trace]}
+        res['journal'] = []
+        res['crash_points'] = []
+    return res
+
+
+_DS_HASH = {}
+
+
 def run_one(cfg, tape: Tape, want_trace=False):
     prepare()
     if PREPARE_VIOLATIONS:
@@ -1601,6 +1687,8 @@ def run_one(cfg, tape: Tape, want_trace=False):
                 'states': [], 'sim_seconds': 0.0}
     if cfg.get('mode') == 'scale':
         return run_scale(cfg, tape, want_trace)
+    if cfg.get('mode') == 'keyrace':
+        return run_keyrace(cfg, tape, want_trace)
     if cfg.get('mode') == 'excpoint':
         return run_excpoints(cfg, tape, want_trace)
     if cfg.get('mode') == 'insitu':
